@@ -11,6 +11,14 @@ Correspondence
       with the Lean `reorderArgs`/`marginalOrder`/range placement.
 Oracle / partial clauses (runtime): pdf >= 0, = product of independent scalar leaf pdfs;
 quadrature of pdf ~ 1 and ~ cdf; marginal_cdf(marginal_icdf(p)) ~ p within DKW.
+  (C) one shipped-family and one rational-double 2-D model per run: normalisation, cdf value, rows in one call,
+      marginal round trip, VALUES of marginal_pdf (3 points, one call) / marginal_cdf against an independent
+      quadrature of f0(t) f1(x|t) / f0(t) F1(x|t) over constructed leaves, integer x.
+  (D) VALUE oracles on light-tailed exponential doubles (ExpDist; closed-form / independent-quadrature reference):
+      marginal_pdf / marginal_cdf (several unsorted points per call; array, list, integer array), cdf (2-D and 3-D;
+      list, row vector, integer forms, rows at and below 0), the unconditional shortcut of marginal_pdf / cdf / icdf
+      (also for a later unconditional dimension), marginal_icdf in the bulk and the tails with default and explicit
+      precision_factor (Bernstein band; sample size drawn vs the documented size = correspondence).
 """
 import math
 import warnings
@@ -46,6 +54,16 @@ def gen_pdf_cases(rng, n):
             pts = 10 ** rng.uniform(-1.5, 1.3, size=(k, n_dim))
             if rng.integers(0, 4) == 0:
                 pts = np.round(pts, 1) + 0.1
+        if form not in ("intlist", "intarray") and rng.integers(0, 6) == 0:
+            # boundary / outside of the support: exactly 0 anywhere; negative values only in dimensions that no
+            # other dimension is conditional on (a dependence function need not be admissible at a negative value)
+            leaf_dims = [i for i in range(n_dim) if i not in m.cond]
+            for _z in range(int(rng.integers(1, 3))):
+                j = int(rng.integers(0, k))
+                if leaf_dims and rng.integers(0, 2):
+                    pts[j, int(rng.choice(leaf_dims))] = -float(rng.choice([0.5, 1.0, 2.5]))
+                else:
+                    pts[j, int(rng.integers(0, n_dim))] = 0.0
         yield {"part": "A", "mode": "table" if table else "doubles", "model": m.describe(), "form": form,
                "points": [[float(v) for v in r] for r in pts]}
 
@@ -105,6 +123,10 @@ def process_pdf(ck, case):
     ck.count("part=A")
     ck.count("A_form=" + case["form"])
     ck.count("A_mode=" + case["mode"])
+    if np.any(pts == 0):
+        ck.count("A_point_with_zero")
+    if np.any(pts < 0):
+        ck.count("A_point_with_negative")
     bad = []
     if got.shape != (len(pts),):
         bad.append(("pdf_shape", f"shape {got.shape} for {len(pts)} points"))
@@ -241,10 +263,31 @@ def process_reorder(ck, rng, n_dim, dim, which):
 
 # --------------------------------------------------------------------------- (C) runtime-only clauses
 
-def process_integrals(ck, rng, table):
+def _unbounded_inside(m):
+    for i, d in enumerate(m.dims):
+        if d["family"] == "Weibull" and d["params"]["gamma"][1] > 0:
+            gs = [None] if d["cond"] is None else [0.0, 0.5, 2.0, 8.0, 30.0]
+            if any(m.param_values(i, g)["beta"] < 1 for g in gs):
+                return True
+    return False
+
+
+def process_integrals(ck, rng, table, slow_s=4.0):
+    """slow_s: a joint cdf evaluation that takes longer than this (models whose density has a kink inside the
+    integration domain: 10-20 s per point) is not repeated seven more times for the rows-in-one-call comparison
+    (that comparison then runs on the doubles of this part and of part D only)"""
+    import time
+
     from scipy import integrate
 
     m = models.random_fam_model(rng, n_dim=2) if table else doubles.random_model(rng, n_dim=2)
+    for _ in range(20):
+        if not (table and _unbounded_inside(m)):
+            break
+        # a Weibull factor with location > 0 and shape < 1 is unbounded along a line INSIDE the integration domain:
+        # adaptive quadrature over (0, inf) returns inf / garbage there, which says nothing about the property
+        ck.count("C_model_with_interior_singularity_redrawn")
+        m = models.random_fam_model(rng, n_dim=2)
     if not table:
         # location-free doubles only: a location parameter makes the density jump along a curve inside the
         # integration domain and nested adaptive quadrature (the code's and the reference's alike) is then only
@@ -257,15 +300,25 @@ def process_integrals(ck, rng, table):
     bad = []
     with np.errstate(all="ignore"), warnings.catch_warnings():
         warnings.simplefilter("ignore")
-        if table:
-            tot, _ = integrate.nquad(lambda y, x: float(model.pdf([[x, y]])[0]), [(0, np.inf), (0, np.inf)],
-                                     opts={"limit": 60})
-            if abs(tot - 1) > 2e-4:
-                bad.append(("pdf_integrates_to_one", f"integral {tot!r}"))
+        tot, _ = integrate.nquad(lambda y, x: float(model.pdf([[x, y]])[0]), [(0, np.inf), (0, np.inf)],
+                                 opts={"limit": 60})
+        ck.count("C_normalisation mode=" + ("table" if table else "doubles"))
+        if abs(tot - 1) > (2e-4 if table else 1e-6):
+            bad.append(("pdf_integrates_to_one", f"integral {tot!r}"))
         smp = model.draw_sample(4000, random_state=int(rng.integers(0, 2**31)))
         x = np.array([[float(np.quantile(smp[:, 0], 0.6)), float(np.quantile(smp[:, 1], 0.7))]])
+        t_cdf = time.time()
         c = float(model.cdf(x)[0])
-        ref, _ = integrate.nquad(lambda y, xx: float(model.pdf([[xx, y]])[0]), [(0, x[0, 1]), (0, x[0, 0])])
+        t_cdf = time.time() - t_cdf
+        if table:
+            # independent reference: \int_0^{x0} f_0(t) F_1(x1 | t) dt with leaves constructed at the dependence values
+            # (one quadrature of independently evaluated factors instead of a second nested quadrature of model.pdf)
+            d0 = m.leaf(0)
+            ref, _ = integrate.quad(lambda t: float(np.asarray(d0.pdf(t))) * float(np.asarray(
+                (m.leaf(1, t) if m.cond[1] is not None else m.leaf(1)).cdf(x[0, 1]))), 0, x[0, 0],
+                epsabs=1e-11, epsrel=1e-9, limit=200)
+        else:
+            ref, _ = integrate.nquad(lambda y, xx: float(model.pdf([[xx, y]])[0]), [(0, x[0, 1]), (0, x[0, 0])])
         # both numbers are nested adaptive quadratures of a density with kinks (integration order differs):
         # agreement is expected within quadrature error only
         if abs(c - ref) > 2e-4:
@@ -273,26 +326,62 @@ def process_integrals(ck, rng, table):
         # several rows in one call (rotated order, one duplicate): one value per row, each what the row gives alone
         pts = np.array([[float(np.quantile(smp[:, 0], q0)), float(np.quantile(smp[:, 1], q1))]
                         for q0, q1 in ((0.3, 0.4), (0.6, 0.7), (0.8, 0.5))])
-        single = np.array([float(model.cdf(pts[k:k + 1])[0]) for k in range(3)])
-        order = [1, 2, 0, 1]
-        multi = np.asarray(model.cdf(pts[order]), dtype=float)
-        if multi.shape != (4,) or not np.allclose(multi, single[order], rtol=1e-9, atol=1e-12):
-            bad.append(("cdf_one_value_per_row_in_input_order",
-                        f"cdf(rows {order} of {pts.tolist()}) = {multi.tolist()}, row by row {single[order].tolist()}"))
+        if t_cdf <= slow_s:
+            ck.count("C_rows_in_one_call")
+            single = np.array([float(model.cdf(pts[k:k + 1])[0]) for k in range(3)])
+            order = [1, 2, 0, 1]
+            multi = np.asarray(model.cdf(pts[order]), dtype=float)
+            if multi.shape != (4,) or not np.allclose(multi, single[order], rtol=1e-9, atol=1e-12):
+                bad.append(("cdf_one_value_per_row_in_input_order",
+                            f"cdf(rows {order} of {pts.tolist()}) = {multi.tolist()}, row by row {single[order].tolist()}"))
+        else:
+            ck.count("C_rows_in_one_call_skipped_slow_quadrature")
         # marginal consistency for the conditional variable (Monte-Carlo icdf vs quadrature cdf)
         dim = 1
+        t_mcdf = 0.0
         if model.conditional_on[dim] is not None:
             p = 0.8
             q = float(np.asarray(model.marginal_icdf([p], dim)).ravel()[0])
+            t_mcdf = time.time()
             back = float(np.asarray(model.marginal_cdf(np.array([q]), dim)).ravel()[0])
+            t_mcdf = time.time() - t_mcdf
             n_mc = 100000
             eps = math.sqrt(math.log(2 / 1e-12) / (2 * n_mc)) + 1e-3  # DKW + quantile interpolation slack
             if abs(back - p) > eps:
                 bad.append(("marginal_cdf_of_marginal_icdf", f"p={p} icdf={q!r} cdf back={back!r} eps={eps:.4f}"))
+            if table:
+                # VALUE of marginal_cdf / marginal_pdf for shipped families: independent quadrature of
+                # f_0(t) * F_1(x | t)  resp.  f_0(t) * f_1(x | t)  with leaves constructed at the dependence values
+                d0 = m.leaf(0)
+
+                def ref_marg(xv, kind):
+                    def g(t):
+                        lf = m.leaf(1, t)
+                        v = lf.cdf(xv) if kind == "cdf" else lf.pdf(xv)
+                        return float(np.asarray(d0.pdf(t))) * float(np.asarray(v))
+                    return integrate.quad(g, 0, np.inf, epsabs=1e-11, epsrel=1e-9, limit=200)
+
+                r_cdf, e_cdf = ref_marg(q, "cdf")
+                ck.count("C_table_marginal_values")
+                if math.isfinite(r_cdf) and e_cdf < 1e-6 and abs(back - r_cdf) > 2e-5:
+                    bad.append(("marginal_cdf_is_integral_of_marginal_pdf",
+                                f"marginal_cdf([{q!r}], 1) = {back!r}, independent quadrature of f0(t)*F1(x|t): {r_cdf!r}"))
+                xs3 = [float(np.quantile(smp[:, dim], qq)) for qq in (0.5, 0.2, 0.9)]
+                got3 = np.asarray(model.marginal_pdf(np.array(xs3), dim), dtype=float)
+                ref3 = [ref_marg(xv, "pdf") for xv in xs3]
+                if all(math.isfinite(r) and e < 1e-6 for r, e in ref3):
+                    r3 = np.array([r for r, _ in ref3])
+                    if got3.shape != (3,) or not np.all(np.abs(got3 - r3) <= 2e-5 * np.maximum(r3, 1e-3)):
+                        bad.append(("marginal_pdf_is_integral_of_joint_pdf",
+                                    f"marginal_pdf({xs3}, 1) = {got3.tolist()}, independent quadrature of f0(t)*f1(x|t): {r3.tolist()}"))
+                else:
+                    ck.count("C_table_reference_quadrature_inaccurate")
         # integer-valued evaluation points must give the same marginals as the same values as floats
         if model.conditional_on[dim] is not None:
+            names = ("marginal_pdf", "marginal_cdf") if t_mcdf <= slow_s else ("marginal_pdf",)
+            ck.count("C_integer_input " + "+".join(names))
             xi = [int(max(1, round(float(np.quantile(smp[:, dim], 0.5)))))]
-            for name in ("marginal_pdf", "marginal_cdf"):
+            for name in names:
                 a = np.asarray(getattr(model, name)(np.array(xi), dim), dtype=float)
                 b = np.asarray(getattr(model, name)(np.array(xi, dtype=float), dim), dtype=float)
                 if not np.allclose(a, b, rtol=1e-9, atol=0, equal_nan=True):
@@ -354,18 +443,371 @@ def process_history(ck, rng):
                 f"{q_fresh.tolist()} (empirical quantiles of B: {emp.tolist()})")
 
 
+# --------------------------------------------------------------------------- (D) value oracles on light-tailed doubles
+
+class ExpDist(doubles.Distribution):
+    """exponential double: f(x) = exp(-x/s)/s for x > 0. Light tails, so that the code's nested adaptive quadrature
+    (scipy nquad with default tolerances) is accurate to ~1e-8 and fast; used for VALUE oracles only (no Lean model:
+    the reference below is closed-form Python / an independent scipy quad of closed-form integrands)."""
+
+    def __init__(self, s=1.0, f_s=None):
+        self.s = s if f_s is None else f_s
+        self.f_s = f_s
+
+    @property
+    def parameters(self):
+        return {"s": self.s}
+
+    def cdf(self, x, s=None):
+        s = self.s if s is None else s
+        x = np.asarray(x, dtype=float)
+        return np.where(x > 0, -np.expm1(-np.maximum(x, 0) / s), 0.0)
+
+    def pdf(self, x, s=None):
+        s = self.s if s is None else s
+        x = np.asarray(x, dtype=float)
+        return np.where(x > 0, np.exp(-np.maximum(x, 0) / s) / s, 0.0)
+
+    def icdf(self, prob, s=None):
+        s = self.s if s is None else s
+        return -s * np.log1p(-np.asarray(prob, dtype=float))
+
+    def draw_sample(self, n, s=None, *, random_state=None):
+        s = self.s if s is None else s
+        rng = np.random.default_rng(random_state)
+        size = self._get_rvs_size(n, (s,))
+        return self.icdf(rng.uniform(size=size), s)
+
+    def _fit_mle(self, data):
+        raise NotImplementedError()
+
+    def _fit_lsq(self, data, weights):
+        raise NotImplementedError()
+
+
+class ExpModel:
+    """hierarchical model over ExpDist leaves; the scale of a conditional dimension is a doubles.Dep of the
+    conditioning value (real DependenceFunction objects, real GlobalHierarchicalModel)"""
+
+    def __init__(self, cond, sdeps):
+        self.cond, self.s, self.n_dim = list(cond), sdeps, len(cond)
+
+    def build(self):
+        descs = []
+        for i, c in enumerate(self.cond):
+            if c is None:
+                descs.append({"distribution": ExpDist(s=self.s[i].pars[0])})
+            else:
+                descs.append({"distribution": ExpDist(), "conditional_on": c, "parameters": {"s": self.s[i].build()}})
+        return doubles.GlobalHierarchicalModel(descs)
+
+    def describe(self):
+        return {"cond": self.cond, "s": [d.describe() for d in self.s]}
+
+    # ---- independent reference (plain Python floats) ----
+    def scale(self, i, g):
+        return self.s[i].pars[0] if self.cond[i] is None else self.s[i].value(g)
+
+    def f(self, i, x, g):
+        s = self.scale(i, g)
+        return math.exp(-x / s) / s if x > 0 else 0.0
+
+    def F(self, i, x, g):
+        s = self.scale(i, g)
+        return -math.expm1(-x / s) if x > 0 else 0.0
+
+    def Q(self, i, p, g):
+        return -self.scale(i, g) * math.log1p(-p)
+
+    def ancestors(self, d):
+        out = []
+        while self.cond[d] is not None:
+            d = self.cond[d]
+            out.append(d)
+        return out
+
+    def ref_marginal(self, d, x, kind):
+        """marginal pdf / cdf of dimension d at x. Variables that d does not (transitively) depend on integrate to
+        one (mass_one_iterated), so only the chain of ancestors is integrated: depth 1 = one quad, depth 2 = a 2-D
+        nquad of a closed-form integrand."""
+        from scipy import integrate
+
+        leaf = self.f if kind == "pdf" else self.F
+        anc = self.ancestors(d)
+        if not anc:
+            return leaf(d, x, None)
+
+        def integrand(*ts):
+            v = leaf(d, x, ts[0])
+            for k, a in enumerate(anc):
+                v *= self.f(a, ts[k], ts[k + 1] if k + 1 < len(anc) else None)
+            return v
+
+        r, _ = integrate.nquad(integrand, [(0, np.inf)] * len(anc), opts={"epsabs": 1e-13, "epsrel": 1e-11, "limit": 200})
+        return r
+
+    def ref_cdf(self, row):
+        """joint cdf at row: the last variable in closed form (nobody depends on it), the others by nquad of the
+        closed-form density"""
+        from scipy import integrate
+
+        n = self.n_dim
+        if any(v <= 0 for v in row):
+            return 0.0
+
+        def integrand(*ts):
+            v = 1.0
+            for i in range(n - 1):
+                v *= self.f(i, ts[i], None if self.cond[i] is None else ts[self.cond[i]])
+            c = self.cond[n - 1]
+            return v * self.F(n - 1, row[n - 1], None if c is None else ts[c])
+
+        r, _ = integrate.nquad(integrand, [(0, float(row[i])) for i in range(n - 1)],
+                               opts={"epsabs": 1e-13, "epsrel": 1e-11, "limit": 200})
+        return r
+
+
+def exp_model_from_desc(d):
+    return ExpModel(d["cond"], [doubles.dep_from_desc(x) for x in d["s"]])
+
+
+def random_exp_model(rng, cond):
+    s = []
+    for c in cond:
+        if c is None:
+            s.append(doubles.Dep("fixed", [float(10 ** rng.uniform(-0.3, 0.5))]))
+        else:
+            s.append(doubles.random_dep(rng, allow_fixed=False))
+    return ExpModel(cond, s)
+
+
+def bernstein_eps(n, p, delta=1e-12):
+    """|F(empirical p-quantile of n draws) - p| <= eps with probability >= 1 - delta (Bernstein bound for the
+    binomial count, variance taken at the far end of the band; + 2/n for the interpolation between order statistics)"""
+    b = math.log(2 / delta)
+    q = min(p, 1 - p)
+    eps = 0.0
+    for _ in range(3):
+        var = n * min(0.25, q + eps)
+        t = b / 3 + math.sqrt(b * b / 9 + 2 * b * var)
+        eps = t / n
+    return eps + 2.0 / n
+
+
+QUAD_RTOL_3D = 1e-6
+QUAD_RTOL = 1e-7   # code: nested scipy nquad, default epsabs = epsrel = 1.49e-8 per level, smooth light-tailed integrands
+
+
+def _close(got, ref, rtol=QUAD_RTOL, atol=1e-9):
+    got, ref = np.asarray(got, dtype=float), np.asarray(ref, dtype=float)
+    return got.shape == ref.shape and bool(np.all(np.abs(got - ref) <= atol + rtol * np.abs(ref)))
+
+
+def gen_value_cases(rng, thorough):
+    """(structure, what) pairs: every 2-D structure and a rotating choice of 3-D structures per run"""
+    conds2 = doubles.all_structures(2)
+    conds3 = doubles.all_structures(3)
+    cases = []
+    for cond in conds2 + [[None, 0]]:
+        cases.append((cond, "full"))
+    order3 = list(rng.permutation(len(conds3)))
+    n3 = len(conds3) if thorough else 2
+    for k in order3[:n3]:
+        cases.append((conds3[int(k)], "full3"))
+    if thorough:
+        for cond in conds2 * 3:
+            cases.append((cond, "full"))
+    # marginal_icdf requests, rotated over the cases that have a conditional dimension so that every run has the
+    # tail / large-sample branch (n > 100000) and an explicitly passed precision_factor
+    specs = [lambda: {"p": [float(rng.choice([1e-4, 2e-4, 5e-4])), 0.5, float(rng.choice([0.99, 0.999]))], "precision_factor": 1.0},
+             lambda: {"p": [0.05, float(rng.uniform(0.3, 0.7)), 0.9], "precision_factor": float(rng.choice([100.0, 250.0]))},
+             lambda: {"p": [0.5, float(rng.choice([1e-3, 2e-3])), 0.9], "precision_factor": float(rng.choice([0.5, 3.0]))},
+             lambda: {"p": [float(rng.uniform(0.02, 0.98))], "precision_factor": 1.0}]
+    k_cond = 0
+    for cond, what in cases:
+        m = random_exp_model(rng, cond)
+        seed = int(rng.integers(0, 2**31))
+        spec = specs[k_cond % len(specs)]()
+        if any(c is not None for c in cond):
+            k_cond += 1
+        yield {"part": "D", "what": what, "model": m.describe(), "seed": seed,
+               "xform": str(rng.choice(["array", "list", "intarray"])),
+               "cdf_form": str(rng.choice(["list2d", "row1d", "rowlist", "intarray", "intlist"])),
+               "icdf": spec, "thorough": bool(thorough)}
+
+
+def process_values(ck, case):
+    """VALUE oracles: marginal_pdf / marginal_cdf / cdf / marginal_icdf of the real model against the closed-form /
+    independent-quadrature reference of ExpModel; several points per call; list / integer / row inputs"""
+    from scipy import integrate
+
+    m = exp_model_from_desc(case["model"])
+    n_dim = m.n_dim
+    model = m.build()
+    ck.case(case, nontrivial=any(c is not None for c in m.cond))
+    ck.count("part=D-values")
+    ck.count("D_cond=" + ",".join("-" if c is None else str(c) for c in m.cond))
+    rng = np.random.default_rng(case["seed"])
+    bad = []
+
+    def call(name, fn):
+        try:
+            with np.errstate(all="ignore"), warnings.catch_warnings():
+                warnings.simplefilter("ignore")
+                return np.asarray(fn(), dtype=float)
+        except Exception as e:  # noqa: BLE001
+            bad.append((name + "_evaluates", f"{type(e).__name__}: {e}"))
+            return None
+
+    # evaluation points from the reference model itself (inverse Rosenblatt of fixed probabilities)
+    def ref_point(ps):
+        row = []
+        for i in range(n_dim):
+            row.append(m.Q(i, ps[i], None if m.cond[i] is None else row[m.cond[i]]))
+        return row
+
+    pts = [ref_point(p) for p in ([0.3] * n_dim, [0.6, 0.7, 0.5][:n_dim], [0.9, 0.4, 0.8][:n_dim])]
+
+    # ---- normalisation (2-D only: cheap)
+    if n_dim == 2:
+        with np.errstate(all="ignore"), warnings.catch_warnings():
+            warnings.simplefilter("ignore")
+            tot, _ = integrate.nquad(lambda y, x: float(model.pdf([[x, y]])[0]), [(0, np.inf), (0, np.inf)])
+        ck.count("D_normalisation")
+        if abs(tot - 1) > 1e-6:
+            bad.append(("pdf_integrates_to_one", f"integral of pdf over (0,inf)^2 = {tot!r}"))
+
+    # ---- joint cdf: value, input forms, several rows per call, rows at / below the lower end of the support
+    form = case["cdf_form"]
+    if form in ("intarray", "intlist"):
+        rows = [[float(max(1, round(v))) for v in r] for r in pts]
+    else:
+        rows = [list(map(float, r)) for r in pts]
+    if form in ("row1d", "rowlist"):
+        rows = rows[1:2]
+    else:
+        rows = rows + [[0.0] + rows[0][1:], rows[1][:-1] + [-1.5]][: (2 if form == "list2d" else 0)]
+    x_in = {"list2d": rows, "row1d": np.array(rows[0]), "rowlist": list(rows[0]),
+            "intarray": np.array(rows).astype(int), "intlist": [[int(v) for v in r] for r in rows]}[form]
+    ck.count("D_cdf_form=" + form)
+    ck.count(f"D_cdf_n_dim={n_dim}")
+    got = call("cdf", lambda: model.cdf(x_in))
+    if got is not None:
+        ref = np.array([m.ref_cdf(r) for r in rows])
+        if not _close(got, ref):
+            bad.append(("cdf_is_integral_of_pdf",
+                        f"cdf({x_in!r}) = {got.tolist()}, integral of the product density over the lower-left orthant = {ref.tolist()}"))
+        if np.any(ref == 0):
+            ck.count("D_cdf_row_outside_support")
+
+    # ---- marginals
+    xform = case["xform"]
+    for dim in range(n_dim):
+        conditional = m.cond[dim] is not None
+        depth = len(m.ancestors(dim))
+        xs = sorted(float(r[dim]) for r in pts)
+        xs = [xs[1], xs[0], xs[2]]          # not sorted: position i of the result belongs to x[i]
+        if xform == "intarray":
+            xs = [2.0, 1.0, 4.0]
+        x_arg = {"array": np.array(xs), "list": list(xs), "intarray": np.array(xs).astype(int)}[xform]
+        ck.count(f"D_marginal dim={dim} {'conditional depth ' + str(depth) if conditional else 'unconditional'}")
+        ck.count("D_marginal_xform=" + xform)
+        tol = dict(rtol=1e-12, atol=0) if not conditional else dict(rtol=QUAD_RTOL if n_dim == 2 else QUAD_RTOL_3D)
+        # marginal_pdf (n_dim-1 nested quadratures per point)
+        got = call("marginal_pdf", lambda: model.marginal_pdf(x_arg, dim))
+        if got is not None:
+            ref = np.array([m.ref_marginal(dim, x, "pdf") for x in xs])
+            if not _close(got, ref, **tol):
+                bad.append(("marginal_pdf_is_integral_of_joint_pdf" if conditional else "unconditional_marginal_is_own_distribution",
+                            f"marginal_pdf({x_arg!r}, {dim}) = {got.tolist()}, reference {ref.tolist()}"))
+        # marginal_cdf (n_dim nested quadratures per point: 3-D conditional is ~10 s per point, thorough only, 1 point)
+        x_cdf, xs_cdf = x_arg, xs
+        if conditional and n_dim == 3:
+            if not case["thorough"] or dim != 2:
+                x_cdf = None
+            else:
+                x_cdf, xs_cdf = np.array(xs[:1]), xs[:1]
+        if x_cdf is not None:
+            got = call("marginal_cdf", lambda: model.marginal_cdf(x_cdf, dim))
+            if got is not None:
+                ref = np.array([m.ref_marginal(dim, x, "cdf") for x in xs_cdf])
+                if not _close(got, ref, **tol):
+                    bad.append(("marginal_cdf_is_integral_of_marginal_pdf" if conditional else "unconditional_marginal_is_own_distribution",
+                                f"marginal_cdf({x_cdf!r}, {dim}) = {got.tolist()}, reference {ref.tolist()}"))
+        # marginal_icdf: exact for an unconditional dimension; Monte-Carlo quantile otherwise (bulk, tails, precision_factor)
+        p = list(case["icdf"]["p"])
+        pf = case["icdf"]["precision_factor"]
+        drawn = []
+        orig = model.draw_sample
+
+        def spy(n, *a, **kw):
+            drawn.append(int(n))
+            return orig(n, *a, **kw)
+
+        model.draw_sample = spy
+        try:
+            q = call("marginal_icdf", lambda: model.marginal_icdf(p, dim, pf) if pf != 1.0 else model.marginal_icdf(p, dim))
+        finally:
+            del model.draw_sample
+        if q is None:
+            continue
+        if q.shape != (len(p),):
+            bad.append(("marginal_icdf_shape", f"shape {q.shape} for {len(p)} probabilities"))
+            continue
+        if not conditional:
+            ref = np.array([m.Q(dim, pp, None) for pp in p])
+            if drawn or not _close(q, ref, rtol=1e-12, atol=0):
+                bad.append(("unconditional_marginal_is_own_distribution",
+                            f"marginal_icdf({p}, {dim}) = {q.tolist()}, icdf of the dimension's own distribution {ref.tolist()}"
+                            + (f" (a sample of {drawn} was drawn)" if drawn else "")))
+            continue
+        n_mc = drawn[0] if len(drawn) == 1 else None
+        p_small = min(min(p), 1 - max(p))
+        n_doc = max(int((1 / p_small) * (100 * pf)), 100000)
+        ck.count("D_icdf_n>100000" if n_doc > 100000 else "D_icdf_n=100000")
+        if pf != 1.0:
+            ck.count("D_icdf_precision_factor_passed")
+        if n_mc != n_doc:
+            ck.diverge("marginal-icdf-sample-size", case,
+                       f"marginal_icdf({p}, {dim}, precision_factor={pf}) drew {drawn}, documented size max(100000, int(100*pf/p_small)) = {n_doc}")
+        n_eff = min(n_mc or 100000, n_doc)
+        back = np.array([m.ref_marginal(dim, float(v), "cdf") for v in q])
+        eps = np.array([bernstein_eps(n_eff, pp) for pp in p]) + 1e-9
+        if not np.all(np.abs(back - np.array(p)) <= eps):
+            bad.append(("marginal_cdf_of_marginal_icdf",
+                        f"marginal_icdf({p}, {dim}, precision_factor={pf}) = {q.tolist()}; marginal cdf there = {back.tolist()}, "
+                        f"allowed deviation {eps.tolist()} for n = {n_eff}"))
+        # ... and with the code's own marginal_cdf at the bulk probability (2-D: cheap)
+        if n_dim == 2:
+            j = int(np.argmin(np.abs(np.array(p) - 0.5)))
+            own = call("marginal_cdf", lambda: model.marginal_cdf(np.array([q[j]]), dim))
+            if own is not None and abs(float(own[0]) - p[j]) > eps[j] + 1e-6:
+                bad.append(("marginal_cdf_of_marginal_icdf", f"p={p[j]} icdf={q[j]!r} marginal_cdf back={float(own[0])!r} eps={eps[j]:.5f}"))
+    for pred, detail in bad:
+        ck.fail({"entry": "GlobalHierarchicalModel", "predicate": pred}, case, detail)
+
+
 def main(ck):
     rng = np.random.default_rng(ck.seed)
     thorough = ck.tier == "thorough"
-    ck.rule = ("(A) pdf of random hierarchical models (n_dim 2-4, doubles and shipped families) at random points in "
-               "six input forms (2-D array, nested list, 1-D row, row list, integer list, integer array); (B) nquad "
-               "argument placement for cdf / marginal_pdf / marginal_cdf over all (n_dim <= 4, dim) pairs; (C) a few "
-               "quadrature / Monte-Carlo consistency runs; non-trivial = model with a dependent parameter; distinct by SHA1")
+    ck.rule = ("(A) pdf of random hierarchical models (n_dim 2-4, doubles and shipped families) at random points "
+               "(incl. 0 and negative values) in six input forms (2-D array, nested list, 1-D row, row list, integer "
+               "list, integer array); (B) nquad argument placement for cdf / marginal_pdf / marginal_cdf over all "
+               "(n_dim <= 4, dim) pairs; (C) quadrature / Monte-Carlo consistency and marginal values on one shipped-"
+               "family and one rational-double 2-D model (6 each in thorough); (D) values of marginal_pdf / "
+               "marginal_cdf / cdf / marginal_icdf on exponential doubles: every 2-D structure, 2 (thorough: all 9) "
+               "3-D structures; non-trivial = model with a dependent parameter; distinct by SHA1")
     ck.assumptions = ["leaf pdfs of shipped families are TABLE'd from constructed template instances",
                       "scipy.integrate.nquad integrates argument k over ranges[k] (its documented contract)"]
-    ck.partial = {"cdf equals the integral of pdf": "nquad accuracy is runtime behaviour; validated on a few points per run",
-                  "pdf integrates to one (continuous case)": "proved for finite supports (mass_one_discrete); quadrature validated at runtime",
-                  "marginal_cdf(marginal_icdf(p)) = p": "Monte-Carlo; validated with a DKW band at runtime"}
+    ck.partial = {"cdf equals the integral of pdf": "the code's cdf is the iterated integral handed to nquad (placement proven, "
+                  "Fubini for 2-D proven); its numerical VALUE is observed: compared per run with closed-form / independent-"
+                  "quadrature references on exponential doubles (2-D, 3-D) and one shipped-family model",
+                  "pdf integrates to one (continuous case)": "proved for finite supports (mass_one_discrete) and for the mathematical "
+                  "iterated integral (mass_one_iterated, not tied to the code); quadrature of the code's pdf observed per run",
+                  "marginal_pdf / marginal_cdf values": "observed per run against independent references (several points per call)",
+                  "marginal_cdf(marginal_icdf(p)) = p": "Monte-Carlo; observed with a Bernstein/DKW band (error probability 1e-12) at "
+                  "bulk and tail probabilities; sample size vs documented size is a Python-side correspondence",
+                  "marginal_* of an unconditional dimension": "observed: equal to the dimension's own distribution, no sample drawn"}
     for case in gen_pdf_cases(rng, 4000 if thorough else 500):
         process_pdf(ck, case)
     for n_dim in (2, 3, 4):
@@ -374,7 +816,9 @@ def main(ck):
                 for _ in range(6 if thorough else 2):
                     process_reorder(ck, rng, n_dim, dim, which)
     for k in range(12 if thorough else 2):
-        process_integrals(ck, rng, table=(k % 2 == 0))
+        process_integrals(ck, rng, table=(k % 2 == 0), slow_s=6.0 if thorough else 2.0)
+    for case in gen_value_cases(rng, thorough):
+        process_values(ck, case)
     for _ in range(6 if thorough else 1):
         process_history(ck, rng)
 
@@ -383,6 +827,10 @@ def replay(ck, payload):
     case = payload["case"]
     if case.get("part") == "A":
         process_pdf(ck, case)
+    elif case.get("part") == "D":
+        process_values(ck, case)
+    else:
+        print("parts B / C / H are replayed by re-running the check with the recorded seed and tier")
     for s, c, d in ck.failures:
         print("oracle:", s, d)
     for op, c, d in ck.divergences:
